@@ -13,7 +13,9 @@ using d::arr_real;
 using d::cmplx_t;
 
 // ------------------------------------------------------------------------------------------- awgn calibration
-static const double SNRS[7] = {-10, 0, 10, 20, 40, 60, 80};
+// requested SNR in dB: integer values and fractional values (the parameter is real-valued)
+static const double SNRS[13] = {-10, 0, 10, 20, 40, 60, 80, -3.5, -0.5, 0.5, 6.6, 12.7, 59.9};
+static const int NSNR_INT = 7;
 static const double POWS[3] = {1e-6, 1, 1e6};
 // zero-mean letters and letters with a DC component (the power of x includes its DC)
 static const int NSIG = 9;   // the last two are complex only: unequal power of the in-phase and quadrature components
@@ -111,7 +113,11 @@ static void run_awgn(Ctx& ctx, bool T) {
                             }
                         }
                         px /= N;
-                        for (double snr : SNRS) {
+                        for (int si = 0; si < 13; ++si) {
+                            // thorough tier: the fractional values only at signal power 1 (the noise stream of a seed is the same at every power)
+                            if (T && si >= NSNR_INT && pw != 1) continue;
+                            const double snr = SNRS[si];
+                            ctx.note(si >= NSNR_INT ? "awgn fractional snr evaluations" : "awgn integer snr evaluations");
                             d::rng(seed);
                             arr_cmplx yc;
                             arr_real yr;
@@ -282,6 +288,32 @@ static void run_repro(Ctx& ctx, bool T) {
                 ++prog[(size_t)p];
             }
         }
+    }
+    // rand({a,b}, n) takes a real-valued range: fractional bounds must be honoured (values inside [a,b]; the attained spread is
+    // recorded - the statement demands no distribution for rand, so only the documented range is judged)
+    {
+        const double rr[6][2] = {{-2.5, 4.0}, {0.25, 0.75}, {-0.5, 0.5}, {1e-3, 2e-3}, {-7.3, -7.1}, {0.0, 0.9}};
+        for (int r = 0; r < 6; ++r)
+            for (int seed = 0; seed < (T ? 200 : 20); ++seed) {
+                if (!ctx.take("rand.range", P().kv("a", rr[r][0]).kv("b", rr[r][1]).kv("seed", seed))) continue;
+                ctx.nontrivial();
+                const double a = rr[r][0], b = rr[r][1];
+                d::rng(seed);
+                const arr_real v = d::rand({a, b}, 10000);
+                if (v.size() != 10000) {
+                    ctx.fail("rand", fmt("size %d", v.size()), "10000");
+                    continue;
+                }
+                double mn = b, mx = a;
+                bool ok = true;
+                for (int i = 0; i < v.size(); ++i) {
+                    ok &= v[i] >= a && v[i] <= b;
+                    mn = std::min(mn, v[i]);
+                    mx = std::max(mx, v[i]);
+                }
+                if (!ok) ctx.fail("rand", fmt("rand({%g,%g}) produced a value outside the range (min %.17g max %.17g)", a, b, mn, mx), "inside [a,b]");
+                ctx.worst("rand({a,b}) unattained fraction of the range at either end (10^4 draws)", std::max(mn - a, b - mx) / (b - a));
+            }
     }
     // different seeds give different streams (guards against a generator that ignores the seed: the checks above would be vacuous)
     for (int seed = 0; seed < SEEDS; ++seed) {
